@@ -26,6 +26,7 @@ from hypothesis import strategies as st  # noqa: E402
 from adaptix import DebugTrail, ExtraKwargs, ProviderNotFoundError, Retort, name_mapping  # noqa: E402
 from adaptix.conversion import get_converter  # noqa: E402
 from props.c01_roundtrip import build_recipe, recipe_admissible, st_recipe  # noqa: E402
+from props.c04_only_loaderror import PROVS, build_provs  # noqa: E402
 from vkit import codec, soup, tspec  # noqa: E402
 
 PROP = "C20"
@@ -119,6 +120,14 @@ def typed_ids(spec, o, e, out, *, dumped: bool):  # noqa: C901, PLR0912
 
 
 # --------------------------------------------------------------------------------- strategies
+CONVERT_PALETTE = [
+    ["dict", ["str"], ["int"], "typing"], ["dict", ["str"], ["list", ["int"], "typing"], "builtin"], ["list", ["int"], "typing"],
+    ["set", ["int"], "typing"], ["deque", ["str"]], ["list", ["dict", ["str"], ["int"], "typing"], "typing"],
+    ["dict", ["int"], ["optional", ["str"], "optional"], "typing"], ["dict", ["str"], ["dict", ["str"], ["int"], "typing"], "typing"],
+    ["list", ["list", ["int"], "typing"], "builtin"], ["frozenset", ["str"], "typing"], ["vtuple", ["int"], "typing"],
+]
+
+
 @st.composite
 def st_case(draw):
     what = draw(st.sampled_from(["load", "load", "dump", "dump", "extras", "convert", "convert"]))
@@ -132,16 +141,25 @@ def st_case(draw):
     strict = True if not tspec.lax_safe(t) else draw(st.booleans())
     dbg = draw(st.integers(0, 2))
     if what == "convert":
-        t = draw(GEN.strategy().filter(lambda x: x[0] == "model"))
+        if draw(st.integers(0, 2)) == 0:
+            # a model made of compound fields only: every field is converted item by item in the twin
+            names = draw(st.lists(st.sampled_from(tspec.FIELD_NAMES), min_size=1, max_size=4, unique=True))
+            t = ["model", {"name": "M0", "kind": draw(st.sampled_from(["dataclass", "attrs", "namedtuple", "typeddict"])),
+                           "fields": [{"n": n, "t": draw(st.sampled_from(CONVERT_PALETTE)), "d": None} for n in names]}]
+        else:
+            t = draw(GEN.model_root_strategy())
         return {"what": "convert", "t": t, "v": draw(tspec.st_value(t, min_size=1)),
                 "wrap": draw(st.lists(st.booleans(), min_size=8, max_size=8)), "dst_kind": draw(st.sampled_from(
                     ["dataclass", "attrs", "namedtuple", "typeddict"]))}
     recipe = draw(st_recipe(t)) if tspec.contains(t, "model") and what == "dump" and False else []
+    # non-default representations (flags as lists of names, enums by name, datetimes by timestamp / format)
+    provs = draw(st.lists(st.sampled_from(PROVS), min_size=1, max_size=2, unique=True)) \
+        if tspec.contains(t, "enum", "datetime", "date", "literal") and draw(st.booleans()) else []
     if what == "dump":
         return {"what": "dump", "t": t, "v": draw(tspec.st_value(t, min_size=draw(st.sampled_from([0, 1])))),
-                "strict": strict, "debug": dbg, "recipe": recipe}
+                "strict": strict, "debug": dbg, "recipe": recipe, "provs": provs}
     datum, ops = draw(soup.st_near_valid(t, max_mut=draw(st.sampled_from([0, 0, 0, 1]))))
-    return {"what": "load", "t": t, "datum": datum, "ops": ops, "strict": strict, "debug": dbg}
+    return {"what": "load", "t": t, "datum": datum, "ops": ops, "strict": strict, "debug": dbg, "provs": provs}
 
 
 def n_mutable_typed(spec):
@@ -158,7 +176,8 @@ def check_case(ctx: runner.Ctx, case):  # noqa: C901
         return check_convert(ctx, case)
     t = case["t"]
     hint, e = tspec.build_type(t)
-    retort = Retort(recipe=build_recipe(case.get("recipe") or [], e), strict_coercion=case["strict"],
+    retort = Retort(recipe=build_provs(case.get("provs") or []) + build_recipe(case.get("recipe") or [], e),
+                    strict_coercion=case["strict"],
                     debug_trail=DEBUG[case["debug"]])
     try:
         fn = retort.get_loader(hint) if what == "load" else retort.get_dumper(hint)
@@ -182,7 +201,8 @@ def check_case(ctx: runner.Ctx, case):  # noqa: C901
     ctx.case([case], nontrivial,
              sample={"what": what, "type": tspec.text(t), "input": case.get("datum", case.get("v")), "strict": case["strict"],
                      "debug": case["debug"], "outcome": outs[0][0]},
-             labels=[f"what:{what}", f"outcome:{outs[0][0]}", f"mutable_typed_nodes:{min(nmut, 5)}", f"top:{t[0]}"])
+             labels=[f"what:{what}", f"outcome:{outs[0][0]}", f"mutable_typed_nodes:{min(nmut, 5)}", f"top:{t[0]}",
+                     *[f"prov:{p}" for p in case.get("provs") or []]])
     head = f"{what} type={tspec.text(t)} strict={case['strict']} debug={case['debug']} input={case.get('datum', case.get('v'))!r}"
     one_shot = any(isinstance(x, dict) and x.get("$") in ("gen", "bytesio") for x in _walk_spec(case.get("datum", case.get("v"))))
     if before != after and not one_shot:
@@ -319,6 +339,15 @@ def twin_spec(ms, wrap, dst_kind, counter):
                 "none" not in tspec.shapes(ft[1], True) and not tspec.contains(ft, "ref"):
             # same container kind, other element type: converted element-wise ("builtin iterable"), container must be new
             ft = [ft[0], ["optional", ft[1], "optional"], *ft[2:]]
+        elif wrap[counter[0] % len(wrap)] and ft[0] == "dict" and not tspec.contains(ft, "ref") and \
+                tspec.strip(ft[2])[0] not in ("any", "object"):
+            # "source and destination types are dict": converted item by item, the mapping must be new.  Two variants:
+            # other value type (Optional[V]) when V allows it, else the same items under the abstract origin Mapping
+            if tspec.strip(ft[2])[0] not in ("optional", "none", "union", "model") and "none" not in tspec.shapes(ft[2], True) \
+                    and counter[0] % 2 == 0:
+                ft = ["dict", ft[1], ["optional", ft[2], "optional"], *ft[3:]]
+            else:
+                ft = ["mapping", ft[1], ft[2]]
         elif wrap[counter[0] % len(wrap)] and ft[0] not in ("optional", "none", "any", "object", "union") and \
                 "none" not in tspec.shapes(ft, True) and not tspec.contains(ft, "ref"):
             ft = ["optional", ft, "optional"]
@@ -338,7 +367,10 @@ def check_convert(ctx: runner.Ctx, case):
         return
     src_hint, e = tspec.build_type(t)
     dst_spec = ["model", twin_spec(t[1], case["wrap"], case["dst_kind"], [0])]
-    dst_hint, e2 = tspec.build_type(dst_spec)
+    # same environment: the enum / NewType / alias classes of the source are the destination's too (the twin models
+    # have names of their own), otherwise every field mentioning one of them is a pair of unrelated classes
+    src_hint, e = tspec.build_type(t, cache=False)
+    dst_hint, e2 = tspec.build_type(dst_spec, env=e)
     try:
         conv = get_converter(src_hint, dst_hint)
     except ProviderNotFoundError:
@@ -365,7 +397,7 @@ def check_convert(ctx: runner.Ctx, case):
         ctx.violation("mutable_container_shared", ("convert", "result_object"), case, f"{head}: result object not fresh")
     # element-wise converted positions (types differ): containers must be new
     for fs, fd in zip(t[1]["fields"], dst_spec[1]["fields"]):
-        if fs["t"] != fd["t"] and fd["t"][0] in ("list", "model", "set", "deque"):
+        if fs["t"] != fd["t"] and fd["t"][0] in ("list", "model", "set", "deque", "dict", "mapping"):
             def get(o, n, ms):
                 return o[n] if ms["kind"] == "typeddict" else getattr(o, n)
             a, b, s = get(r1, fd["n"], dst_spec[1]), get(r2, fd["n"], dst_spec[1]), get(src, fs["n"], t[1])
